@@ -133,6 +133,8 @@ type PathState struct {
 	mergeDepth   int
 	mergeEpoch   int
 	local        *localExplore
+	ev           *evaluator // model of the current path condition (nil: none)
+	evNVars      int
 }
 
 type mergeImpure struct{}
@@ -214,6 +216,11 @@ func (m *Machine) commit(idx int, d Decision, cond *Term) {
 	}
 	if cond != nil {
 		m.learn(cond)
+		if p.ev != nil {
+			if v, ok := p.ev.eval(cond); !ok || v != 1 {
+				p.ev = nil
+			}
+		}
 	}
 	if m.cfg.MaxDepth > 0 && len(p.taken) > m.cfg.MaxDepth {
 		panic(abortPath{"depth", fmt.Sprintf("more than %d decisions", m.cfg.MaxDepth)})
@@ -273,24 +280,74 @@ func (m *Machine) branch(c *Term) bool {
 		m.commit(idx, d, m.tt.Not(c))
 		return false
 	}
-	rT := m.sol.CheckWith(c)
-	rF := "sat"
-	if rT != "unsat" {
-		rF = m.sol.CheckWith(m.tt.Not(c))
+	var rT, rF string
+	if p.ev != nil {
+		if v, ok := p.ev.eval(c); ok {
+			// the cached model of the path condition witnesses one side
+			if v == 1 {
+				rT, rF = "sat", m.sol.CheckWith(m.tt.Not(c))
+			} else {
+				rF, rT = "sat", m.sol.CheckWith(c)
+			}
+		}
+	}
+	if rT == "" {
+		rT = m.checkWithModel(c)
+		rF = "sat"
+		if rT != "unsat" {
+			rF = m.sol.CheckWith(m.tt.Not(c))
+		}
 	}
 	if rT == "unsat" && rF == "unsat" {
 		panic(abortPath{"dead", "both branches infeasible"})
 	}
-	if rT != "unsat" {
-		if rF != "unsat" {
-			alt := append(append([]Decision{}, p.taken...), Decision{Kind: 'b', Choice: 0})
-			m.ex.enqueue(m, alt)
+	// explore first the side the cached model supports (keeps the model valid along the path)
+	preferFalse := false
+	if p.ev != nil {
+		if v, ok := p.ev.eval(c); ok && v == 0 {
+			preferFalse = true
 		}
+	}
+	if rT != "unsat" && rF != "unsat" {
+		if preferFalse {
+			alt := append(append([]Decision{}, p.taken...), Decision{Kind: 'b', Choice: 1})
+			m.ex.enqueue(m, alt)
+			m.commit(idx, Decision{Kind: 'b', Choice: 0}, m.tt.Not(c))
+			return false
+		}
+		alt := append(append([]Decision{}, p.taken...), Decision{Kind: 'b', Choice: 0})
+		m.ex.enqueue(m, alt)
+		m.commit(idx, Decision{Kind: 'b', Choice: 1}, c)
+		return true
+	}
+	if rT != "unsat" {
 		m.commit(idx, Decision{Kind: 'b', Choice: 1}, c)
 		return true
 	}
 	m.commit(idx, Decision{Kind: 'b', Choice: 0}, m.tt.Not(c))
 	return false
+}
+
+// checkWithModel is CheckWith(c) that also caches the model when sat (valid for PC ∧ c).
+func (m *Machine) checkWithModel(c *Term) string {
+	p := m.path
+	if len(p.varOrd) == 0 || len(p.varOrd) > 400 {
+		return m.sol.CheckWith(c)
+	}
+	terms := make([]*Term, 0, len(p.varOrd))
+	for _, n := range p.varOrd {
+		terms = append(terms, p.vars[n])
+	}
+	vals, _, ok, r := m.sol.ModelR(c, terms)
+	if ok {
+		mv := make(map[*Term]uint64, len(terms))
+		for _, t := range terms {
+			mv[t] = vals[t]
+		}
+		p.ev = newEvaluator(mv)
+		p.evNVars = len(terms)
+	}
+	return r
 }
 
 // assume adds c to the path condition; aborts the path if it becomes infeasible.
